@@ -70,7 +70,7 @@ var rules = []fileRule{
 	{glob: "core/server/*.go", substs: netSubsts},
 	{glob: "core/server/server_scion.go", substs: []subst{{"scion", "NewDaemonConnector", "simnet", "NewDaemonConnector"}}},
 	{glob: "core/client/*.go", substs: netSubsts},
-	{glob: "core/client/client.go", selectFns: []string{"collectMeasurements"}},
+	{glob: "core/client/client.go", selectFns: []string{"collectMeasurements"}, yieldRecv: []string{"ReferenceClockClient"}},
 	{glob: "net/udp/*.go", substs: unixSubsts},
 	{glob: "net/scion/quic.go", substs: netSubsts},
 	{glob: "net/ntske/ntske_ip.go", substs: netSubsts},
